@@ -41,7 +41,7 @@ PROPS = {
             "sections": [dict(hist("hist", ["apply", "copy", "rownums", "eval", "sort"], quick=250), cover_ops=None)],
             "rule": "every step of every generated history re-observes all earlier family members (digest of the full observation); "
                     "evaluations = observations compared; non-trivial = successful operation on a result with >= 2 rows; distinct by (operation, result)"},
-    "C02": {"lean": ["QF.Props.C02", "QF.Props.C02Spec", "QF.Props.C02Mirror", "QF.Props.C02Kernels"], "extra_ns": ["QF.Props.C02Spec", "QF.Props.C02Mirror", "QF.Props.C02Kernels"],
+    "C02": {"lean": ["QF.Props.C02", "QF.Props.C02Spec", "QF.Props.C02Mirror", "QF.Props.C02Kernels", "QF.Props.C02Dispatch"], "extra_ns": ["QF.Props.C02Spec", "QF.Props.C02Mirror", "QF.Props.C02Kernels", "QF.Props.C02Dispatch"],
             "sections": [hist("hist", ["filter"]),
                          {"section": "hist", "tag": "hist-filter", "opt": "ops=filter+filter+filter+filter+sort+slice+distinct", "quick": 400, "thorough": 4000, "cover_ops": {"filter"}}]},
     "C03": {"lean": ["QF.Props.C03", "QF.Props.C03Spec", "QF.Props.C03Compare"], "extra_ns": ["QF.Props.C03Compare"],
@@ -92,7 +92,7 @@ PROPS = {
                          {"section": "quote", "quick": 300, "thorough": 5000, "cover_ops": {"QS"}}],
             "rule": "cases = ToJSON of a derived frame; the bytes are parsed with the spec's RFC 8259 parser (validity) and every record must denote its row (ints exactly, floats parsing back to identical bits, "
                     "NaN/null as null, strings and names decoded with invalid bytes as U+FFFD); ReadJSON of the bytes must reproduce the frame where the property promises it"},
-    "C17": {"lean": ["QF.Props.C17", "QF.Props.C17Enum"], "extra_ns": ["QF.Props.C17Enum"],
+    "C17": {"lean": ["QF.Props.C17", "QF.Props.C17Enum", "QF.Props.C02Dispatch"], "extra_ns": ["QF.Props.C17Enum", "QF.Props.C02Dispatch"],
             "sections": [{"section": "hist", "tag": "hist-wit17", "opt": "wit=enumdup", "quick": 1, "thorough": 1, "cover_ops": {"filter"}, "owns": (lambda m: True)},
                          dict({"section": "hist", "tag": "hist-enum", "opt": "enumheavy=1," + mix("filter", "sort", "distinct", "groupagg"), "quick": 200, "thorough": 2000}, cover_ops=None,
                               owns=lambda m: True),
